@@ -33,7 +33,8 @@ def check_c16(ctx):
     quick = ctx.tier == "quick"
     ctx.cov["rule"] = ("cases = (child behaviour, exit path, moment): 11 behaviours (well-behaved, exits at step 0/1/2, ignores SIGTERM after signalling readiness, never reads stdin, floods stdout, "
                        "closes stdout, closes stdin, slow start, unstartable command) x 4 exit paths (normal, exception in body, outer cancellation, timeout around the context) x 3 moments "
-                       "(before first message, request in flight, after response), each run against a real child process with the real clock; distinct_nontrivial = scenarios with a started child")
+                       "(before first message, request in flight, after response), plus large writes queued at exit (3 behaviours x 4 paths) and the timeout around the context firing 0..80 ms after the "
+                       "context started to be entered (3 behaviours x 8 delays), each run against a real child process with the real clock; distinct_nontrivial = scenarios with a started child")
     ctx.assumptions += ["real time: the exit bound is the two one-second grace periods plus 2.5 s of scheduling slack; a scenario that fails only the duration clause is re-run alone before it is reported",
                         "process state is read from /proc/<pid>/stat and the fd table from /proc/self/fd shortly after the context exits"]
     for cfg, expect in (("mc/StdioLifecycle.cfg", set()), ("mc/StdioLifecycle_dev.cfg", {"NoChildLeftBehind"})):
